@@ -1,8 +1,13 @@
 package main
 
 import (
+	"crypto/elliptic"
 	"fmt"
+	"github.com/bnb-chain/tss-lib/v2/common"
+	"github.com/bnb-chain/tss-lib/v2/crypto/modproof"
+	ecdsakeygen "github.com/bnb-chain/tss-lib/v2/ecdsa/keygen"
 	"math/big"
+	"math/rand"
 	"strings"
 	"verif/harness/internal/sched"
 
@@ -254,7 +259,7 @@ func genC11(r *vc.Run) {
 
 // ---------------- C12 ----------------
 func genC12(r *vc.Run) {
-	r.Rule = "accepted proofs of every system under single transformations: every component (sampled indices of the 13/80/128-fold parts) replaced by +1, -1, a random value, its neighbour, zero; every session / statement component perturbed; the same proof offered under another prover's context (index appended to the session); commitment-response shift attacks (alpha + d*G with t + d); verdicts compared with the Coq verifier models; key generation runs under each single compatibility option (SetNoProofFac only, SetNoProofMod only) with the still-wanted proof made undecodable in transit, which must be refused and attributed; any accepted transformed proof is a violation, except replacing a scalar response by a value congruent modulo the group order; non-trivial = all cases"
+	r.Rule = "accepted proofs of every system under single transformations: every component (sampled indices of the 13/80/128-fold parts) replaced by +1, -1, a random value, its neighbour, zero; every session / statement component perturbed; the same proof offered under another prover's context (index appended to the session); commitment-response shift attacks (alpha + d*G with t + d); verdicts compared with the Coq verifier models; the session strings of key generation runs on two curves checked from the wire against their specification; key generation runs under each single compatibility option (SetNoProofFac only, SetNoProofMod only) with the still-wanted proof made undecodable in transit, which must be refused and attributed; any accepted transformed proof is a violation, except replacing a scalar response by a value congruent modulo the group order; non-trivial = all cases"
 	g := rng{r}
 	insts := honestInstances(r, "c12")
 	q := tss.S256().Params().N
@@ -356,6 +361,7 @@ func genC12(r *vc.Run) {
 	c12Replays(r)
 	c12Shifts(r, insts)
 	c12Options(r)
+	c12SessionStrings(r)
 	// the challenge derivation itself: with the provers' randomness fixed, model and implementation must produce identical proofs
 	// (a component missing from, or added to, the hashed transcript changes every response)
 	c10Light = true
@@ -550,6 +556,67 @@ func c12Options(r *vc.Run) {
 			}
 			if !named {
 				r.Violate("undecodable-proof-not-attributed|"+c.field+"|"+c.name, fmt.Sprintf("nobody names the sender of an undecodable %s (%s): culprits=%v errors=%v", c.field, c.name, res.Culprits, res.ErrText), desc)
+			}
+		}
+	}
+}
+
+// c12SessionStrings: the session string of a key generation is the specified function of the run's own context
+// (Model/TranscriptSpec.v: parameters of the curve given to tss.NewParameters, the committee's keys, round number 1, nonce 0).
+// The modulus proofs on the wire are verified under the session string the harness computes from that specification, with the
+// prover's index appended; they must verify, and must not verify under the session string of the same committee on another
+// curve. Runs: NIST P-256, and secp256k1 twice in a row (the scheduler sets the process-wide default curve to the other
+// registered curve on every second run, so one of the two has a default that differs from the run's curve).
+func c12SessionStrings(r *vc.Run) {
+	ssidOf := func(ec elliptic.Curve, keys []*big.Int) []byte {
+		l := []*big.Int{ec.Params().P, ec.Params().N, ec.Params().Gx, ec.Params().Gy}
+		l = append(l, keys...)
+		l = append(l, big.NewInt(1), big.NewInt(0))
+		return common.SHA512_256i(l...).Bytes()
+	}
+	for ri, cn := range []string{"p256", "secp256k1", "secp256k1"} {
+		ec := curveByName(cn)
+		other := tss.S256()
+		if cn == "secp256k1" {
+			other = elliptic.P256()
+		}
+		rc := buildECDSAKeygen(2, 1, kgOpts{seed: fmt.Sprintf("c12s-%d-%d", r.Seed, ri), ec: ec})
+		rc.net.Rng = rand.New(rand.NewSource(r.Seed + int64(ri)))
+		paiN := map[int]*big.Int{}
+		proofs := map[int]*modproof.ProofMod{}
+		var keys []*big.Int
+		for _, n := range rc.net.New {
+			keys = append(keys, n.PID.KeyInt())
+		}
+		rc.net.Tamper = func(c *sched.Copy) {
+			msg, err := tss.ParseWireMessage(c.Wire, c.From.PID, c.Bcast)
+			if err != nil {
+				return
+			}
+			switch m := msg.Content().(type) {
+			case *ecdsakeygen.KGRound1Message:
+				paiN[c.From.Idx] = m.UnmarshalPaillierPK().N
+			case *ecdsakeygen.KGRound2Message2:
+				if pf, err := m.UnmarshalModProof(); err == nil {
+					proofs[c.From.Idx] = pf
+				}
+			}
+		}
+		rc.net.Run(sched.FIFO, 100000)
+		desc := fmt.Sprintf("ecdsa keygen n=2 t=1 on %s (run %d of the session-string check)", cn, ri)
+		r.Dist["session-string/"+cn]++
+		r.CountCase(desc, len(proofs) == 2, fmt.Sprintf("%s: %d modulus proofs seen", desc, len(proofs)))
+		for j, pf := range proofs {
+			if paiN[j] == nil {
+				continue
+			}
+			ctx := common.AppendBigIntToBytesSlice(ssidOf(ec, keys), big.NewInt(int64(j)))
+			if !pf.Verify(ctx, paiN[j]) {
+				r.Violate("session-string-not-as-specified|ecdsa_keygen|"+cn, fmt.Sprintf("the modulus proof of party %d does not verify under the session string made of the run's own curve (%s), the committee, round 1 and nonce 0: the parties derived their session string from something else", j, cn), desc)
+			}
+			ctx2 := common.AppendBigIntToBytesSlice(ssidOf(other, keys), big.NewInt(int64(j)))
+			if pf.Verify(ctx2, paiN[j]) {
+				r.Violate("session-string-ignores-curve|ecdsa_keygen|"+cn, fmt.Sprintf("the modulus proof of party %d made in a run on %s verifies under the session string of the same committee on another curve", j, cn), desc)
 			}
 		}
 	}
